@@ -360,6 +360,10 @@ fn rec(max: usize) -> BoxedStrategy<Payload> {
         1 => (1024usize..=big_hi, any::<u64>()).prop_map(move |(len, seed)| Payload::Gen { content: Content::Uniform, len: len.min(max), seed }),
         1 => (proptest::sample::select(vec![Content::Constant, Content::Text, Content::Uniform, Content::Runs]), (max / 2)..=max, any::<u64>())
             .prop_map(|(content, len, seed)| Payload::Gen { content, len, seed }),
+        // records that are themselves stored forms: a complete zstd frame / lz4 block (what a
+        // compressing wrapper keeps in its inner store), a frame plus one byte, the frame magic
+        // followed by ordinary bytes.  The inner length leaves room for the framing overhead.
+        1 => crate::gen::framed(size_around(&[0, 16, 64, 900], max.saturating_sub(64).min(2000))),
     ]
     .boxed()
 }
